@@ -1099,8 +1099,26 @@ def call_builtin_method(it, st, recv: V, name: str, args, kwargs, node) -> V:
     if isinstance(recv, VStr):
         if name == "encode":
             enc = const_str(args[0].t) if args else "utf-8"
-            if enc != "ascii":
-                raise Unsupported(f"encode({enc})")
+            if enc is None:
+                raise Unsupported("encode(<computed codec>)")
+            if enc.lower().replace("_", "-") != "ascii":
+                # any other codec: agrees with ascii on ascii text; on other text it either raises UnicodeEncodeError
+                # (never for utf-8) or yields codec-specific bytes (uninterpreted)
+                codec = enc.lower().replace("-", "").replace("_", "")
+                lit = const_str(recv.t)
+                if lit is not None:
+                    try:
+                        return VBytes(lit.encode(enc))
+                    except UnicodeEncodeError:
+                        eng.raise_(st, "UnicodeEncodeError")
+                is_ascii = z3.Function("is_ascii_str", StrS, BoolS)(recv.t)
+                if eng.branch(st, is_ascii, f"is-ascii@{node.lineno}"):
+                    return VBytes(encode_ascii(recv.t))
+                if codec not in ("utf8",):
+                    encodable = z3.Function(f"encodable_{codec}", StrS, BoolS)(recv.t)
+                    if not eng.branch(st, encodable, f"encodable-{codec}@{node.lineno}"):
+                        eng.raise_(st, "UnicodeEncodeError")
+                return VBytes(z3.Function(f"encode_{codec}", StrS, BytesS)(recv.t))
             lit = const_str(recv.t)
             if lit is not None:
                 is_ascii = all(ord(ch) < 128 for ch in lit)
